@@ -326,7 +326,9 @@ def rule_r4(ctx):
         e = e if e is not None else src
         if isinstance(e, ast.Call) and dotted(e.func) == "sorted" and e.args:
             inner = e.args[0]
-            inner = (resolve_locals(f, inner) or inner) if isinstance(inner, ast.Name) else inner
+            # the local the normalised pairs are collected in IS the header list (`self.response_headers = response_headers`)
+            aliased = isinstance(inner, ast.Name) and any(isinstance(a, ast.Assign) and any(dotted(t) == "self.response_headers" for t in a.targets) and dotted(a.value) == inner.id for a in ast.walk(f.node))
+            inner = (resolve_locals(f, inner) or inner) if isinstance(inner, ast.Name) and not aliased else inner
         else:
             inner = e
         if dotted(inner) in ("self.response_headers", "response_headers") and not flt:
